@@ -47,7 +47,7 @@ Definition doe_check (doe : Z) : bool :=
   && (doe_of_civil yoe m d =? doe) && ((doe <? 306) || (1 <=? a)) && ((146036 <? doe) || (a <=? 399)).
 
 Lemma doe_check_all : all_from doe_check (Z.to_nat 146097) 0 = true.
-Proof. vm_compute. reflexivity. Qed.
+Proof. vm_cast_no_check (eq_refl true). Qed.   (* evaluated once, by the kernel's VM, at Qed *)
 
 Lemma doe_check_ok doe : 0 <= doe < 146097 -> doe_check doe = true.
 Proof. intros H. apply (all_from_spec _ _ 0 doe_check_all). rewrite Z2Nat.id; lia. Qed.
@@ -152,7 +152,7 @@ Definition ymd_check (yoe m d : Z) : bool :=
 
 Lemma ymd_check_all :
   all_from (fun yoe => all_from (fun m => all_from (fun d => ymd_check yoe m d) 31 1) 12 1) 400 0 = true.
-Proof. vm_compute. reflexivity. Qed.
+Proof. vm_cast_no_check (eq_refl true). Qed.
 
 Lemma ymd_check_ok yoe m d : 0 <= yoe < 400 -> 1 <= m <= 12 -> 1 <= d <= 31 -> ymd_check yoe m d = true.
 Proof.
@@ -175,6 +175,7 @@ Proof.
   pose proof (ymd_check_ok yoe m d Hyoe Hm ltac:(lia)) as C. unfold ymd_check in C.
   assert (Ha : y = (if m <=? 2 then yoe + 1 else yoe) + era * 400).
   { unfold y' in Hy'. destruct (m <=? 2); lia. }
+  assert (Hrange : 0 <= (if m <=? 2 then yoe + 1 else yoe) <= 400) by (destruct (m <=? 2); lia).
   set (a := if m <=? 2 then yoe + 1 else yoe) in *.
   rewrite Ha in Hd. rewrite days_in_month_period in Hd.
   replace (d <=? days_in_month a m) with true in C by lia.
